@@ -74,7 +74,8 @@ fn mat_for(abc: Abc, tier: Tier) -> BoxedStrategy<MatSpec> {
                         }
                     }
                     MatSpec { rows, bg, regime: "finite".into() }
-                });
+                })
+                .boxed();
             // every cell a multiple of one grid step q (dyadic or decimal): the rounding error of the integer
             // matrix is large at granularities q does not divide and exactly 0 at the finer ones
             let grid = (
@@ -97,7 +98,20 @@ fn mat_for(abc: Abc, tier: Tier) -> BoxedStrategy<MatSpec> {
                     }
                     MatSpec { rows, bg, regime: "grid".into() }
                 });
-            prop_oneof![2 => lib, 2 => fin, 1 => grid]
+            // the same arbitrary cells scaled by 2^-19 (about 2e-6, exact in f32): neighbouring attainable scores lie
+            // 1e-7 .. 1e-12 apart, so the refinement needs ten and more steps before it can tell them apart
+            let tiny = fin.clone().prop_map(|mut m| {
+                for r in m.rows.iter_mut() {
+                    for x in r.iter_mut() {
+                        if x.0.is_finite() {
+                            *x = Fl(x.0 * (1.0 / 524288.0));
+                        }
+                    }
+                }
+                m.regime = "tiny".into();
+                m
+            });
+            prop_oneof![4 => lib, 4 => fin, 2 => grid, 1 => tiny]
         })
         .boxed()
 }
@@ -137,6 +151,12 @@ struct Prep<A: Alphabet> {
     /// background's total from one (the algorithm lets prefixes that already exceed
     /// the range skip the remaining rows, i.e. multiplies by 1 instead of (sum bg)^j)
     rel: f64,
+    /// slack on scores in the direction that weakens a bound: 1e-9 for cells of ordinary size, scaled down with
+    /// the largest cell when every cell is tiny (the exact tail is a sum of f64 values, accurate to ~1e-16 relative)
+    eps: f64,
+    /// refinement steps driven: 8 (granularity 0.1 .. 1e-8); 12 for tiny cells, whose refinement only starts to
+    /// separate scores at granularities below 1e-7 and whose tables stay small
+    steps: usize,
 }
 
 fn prep<A: Alphabet>(case: &Case) -> Prep<A> {
@@ -154,7 +174,11 @@ fn prep<A: Alphabet>(case: &Case) -> Prep<A> {
     // giving the wildcard some frequency by a large factor)
     let rel = 1e-9;
     let _ = total;
-    Prep { pssm, tail, m: cells.len(), mass, rel }
+    let maxabs = cells.iter().flat_map(|r| r.iter()).filter(|x| x.is_finite()).fold(0.0f64, |a, &x| a.max((x as f64).abs()));
+    let tiny = maxabs > 0.0 && maxabs < 1e-3;
+    let eps = 1e-9 * if tiny { maxabs } else { 1.0 };
+    let steps = if tiny { 12 } else { MAX_STEPS };
+    Prep { pssm, tail, m: cells.len(), mass, rel, eps, steps }
 }
 
 fn classify(case: &Case, k: usize, bgf: &[f32], info: &mut CaseInfo) {
@@ -164,7 +188,7 @@ fn classify(case: &Case, k: usize, bgf: &[f32], info: &mut CaseInfo) {
     info.class_if(bgf[..k - 1].iter().any(|&x| (x - u).abs() > 1e-6), "non-uniform-background");
     info.class_if(case.mat.rows.iter().any(|r| r[k - 1].0.is_finite()), "finite-wildcard-column");
     info.class_if(bgf[k - 1] > 0.0, "background-gives-the-wildcard-some-frequency");
-    info.class(match case.mat.regime.as_str() { "library" => "mat:library", "grid" => "mat:grid-valued", _ => "mat:finite" });
+    info.class(match case.mat.regime.as_str() { "library" => "mat:library", "grid" => "mat:grid-valued", "tiny" => "mat:tiny-cells(~2e-6)", _ => "mat:finite" });
 }
 
 // ---------------------------------------------------------------------------
@@ -494,22 +518,23 @@ fn run13<A: Alphabet>(case: &Case, cx: &Cx, info: &mut CaseInfo) -> Option<Failu
         })
         .collect();
     let att = t.some_scores(&picks);
-    let smallest = t.ge(t.max - 1e-9);
+    let eps = p.eps;
+    let smallest = t.ge(t.max - eps);
     let mut ai = 0;
     let mut ps: Vec<(f64, &'static str)> = Vec::new();
     for q in &case.pvalues {
         match q {
             PQuery::TailOf(_) => {
                 if ai < att.len() {
-                    ps.push((t.ge(att[ai] - 1e-12), "attainable-tail"));
+                    ps.push((t.ge(att[ai] - eps * 1e-3), "attainable-tail"));
                 }
                 ai += 1;
             }
             PQuery::BetweenTails(_) => {
                 if ai < att.len() {
-                    let a = t.ge(att[ai] - 1e-12);
-                    let below = t.largest_below(att[ai] - 1e-9);
-                    let b = below.map(|x| t.ge(x - 1e-12)).unwrap_or(1.0);
+                    let a = t.ge(att[ai] - eps * 1e-3);
+                    let below = t.largest_below(att[ai] - eps);
+                    let b = below.map(|x| t.ge(x - eps * 1e-3)).unwrap_or(1.0);
                     ps.push(((a + b) / 2.0, "between-tails"));
                 }
                 ai += 1;
@@ -542,18 +567,18 @@ fn run13<A: Alphabet>(case: &Case, cx: &Cx, info: &mut CaseInfo) -> Option<Failu
             if !thr.is_finite() {
                 return Some(Failure::new("score:not-finite", ctx()));
             }
-            let above = t.ge(thr + d + 1e-9);
+            let above = t.ge(thr + d + eps);
             if std::env::var("LMCHECK_DEBUG").is_ok() {
                 eprintln!(
                     "p={:e} g={:e} t={} range=[{:e},{:e}] conv={} P(S>=t)={:e} P(S>=t+d)={:e} u={:?}",
-                    pv, g, thr, it.range.start(), it.range.end(), it.converged, t.ge(thr), above, t.largest_below(thr - d - 1e-9)
+                    pv, g, thr, it.range.start(), it.range.end(), it.converged, t.ge(thr), above, t.largest_below(thr - d - eps)
                 );
             }
             if above > pv + tau {
                 return Some(Failure::new("score:too-low", format!("{}: P(S >= t+d) = {:e} exceeds p (d = (M+2)g = {:e})", ctx(), above, d)));
             }
-            if let Some(u) = t.largest_below(thr - d - 1e-9) {
-                let pu = t.ge(u - d - 1e-9);
+            if let Some(u) = t.largest_below(thr - d - eps) {
+                let pu = t.ge(u - d - eps);
                 if pu < pv - tau {
                     return Some(Failure::new(
                         "score:too-high",
@@ -566,7 +591,7 @@ fn run13<A: Alphabet>(case: &Case, cx: &Cx, info: &mut CaseInfo) -> Option<Failu
         let first_query = !adaptors_done;
         adaptors_done = true;
         let outcome = catch_inner(|| -> Option<Failure> {
-            for it in tfmp.approximate_score(pv).take(MAX_STEPS) {
+            for it in tfmp.approximate_score(pv).take(p.steps) {
                 if let Some(f) = check_item(&it, "") {
                     return Some(f);
                 }
@@ -629,7 +654,7 @@ impl Sub for ScoreThresholds {
         "score-thresholds"
     }
     fn rule(&self) -> &'static str {
-        "same matrices as C12; 6..12 p-values per matrix (exact tail probabilities of attainable scores, values between two neighbouring tails, below the smallest tail, near 1, arbitrary); approximate_score driven for at most 8 steps; every step with d=(M+2)g: P(S>=t+d) <= p and, with u the largest positive-probability score below t-d, P(S>=u-d) >= p, against exact enumeration; non-trivial = M >= 3 and a p strictly between the smallest tail and 1"
+        "same matrices as C12 (library-made, arbitrary finite, grid-valued, and arbitrary finite cells scaled by 2^-19); 6..12 p-values per matrix (exact tail probabilities of attainable scores, values between two neighbouring tails, below the smallest tail, near 1, arbitrary); approximate_score driven for at most 8 steps (12 for the matrices whose cells are scaled down to ~2e-6, one in eleven, where refinement goes on below granularity 1e-8); every step with d=(M+2)g: P(S>=t+d) <= p and, with u the largest positive-probability score below t-d, P(S>=u-d) >= p, against exact enumeration; non-trivial = M >= 3 and a p strictly between the smallest tail and 1"
     }
     fn cases(&self, tier: Tier) -> u64 {
         tier.pick(20_000, 150_000)
@@ -657,7 +682,7 @@ pub fn property13() -> Property {
         assumptions: vec![
             "finite non-wildcard entries; S over the K-1 real symbols with the matrix's background",
             "'attainable' means attained by a word of positive probability (weaker than counting zero-probability words, hence sound)",
-            "refinement bounded to 8 steps; probabilities compared with 1e-9*p + 1e-15; scores widened by 1e-9 in the weakening direction",
+            "refinement bounded to 8 steps (12 for matrices of tiny cells, ~2e-6: there the steps below 1e-8 are the ones that separate neighbouring scores, and the tables stay small); probabilities compared with 1e-9*p + 1e-15; scores widened by 1e-9 (times the largest cell when that is below 1e-3) in the weakening direction",
         ],
     }
 }
